@@ -248,6 +248,12 @@ type HStep struct {
 	// FailAt > 0: the explicit transaction's COMMIT runs with every mutating request from the
 	// FailAt-th on failing (a storage fault during the upload); the history then goes on
 	FailAt int `json:"fail_at,omitempty"`
+	// FailKind (faulty-vacuum): "" = every mutating request from the FailAt-th on fails;
+	// (txn) "retire" = only the requests that retire the parent version fail;
+	// "node-deletes" = every DELETE of a node object fails; "version-deletes" = every DELETE
+	// of a version object fails (the outcome of these two does not depend on the order in
+	// which the vacuum issues its deletions)
+	FailKind string `json:"fail_kind,omitempty"`
 }
 
 type C16Case struct {
@@ -304,7 +310,8 @@ func genC16Case(t *rapid.T) C16Case {
 		case 3:
 			if !vacuumed && rapid.IntRange(0, 2).Draw(t, "fv") == 0 {
 				// a vacuum whose own commit runs under a storage fault; the history goes on
-				c.Steps = append(c.Steps, HStep{Op: "faulty-vacuum", FailAt: rapid.IntRange(1, 6).Draw(t, "vfail")})
+				c.Steps = append(c.Steps, HStep{Op: "faulty-vacuum", FailAt: rapid.IntRange(1, 6).Draw(t, "vfail"),
+					FailKind: rapid.SampledFrom([]string{"", "", "node-deletes", "version-deletes"}).Draw(t, "vkind")})
 				vacuumed = true
 			} else {
 				c.Steps = append(c.Steps, HStep{Op: "reopen"})
@@ -314,6 +321,11 @@ func genC16Case(t *rapid.T) C16Case {
 			st := HStep{Op: "txn", Auto: k == 1 && rapid.Bool().Draw(t, "auto")}
 			if !st.Auto && !faulted && rapid.IntRange(0, 5).Draw(t, "faulty") == 0 {
 				st.FailAt = rapid.IntRange(1, 8).Draw(t, "failat")
+				if rapid.IntRange(0, 2).Draw(t, "retirefault") == 0 {
+					// only the retirement of the parent version fails: the commit is acknowledged
+					// and the parent stays listed as current
+					st.FailKind = "retire"
+				}
 				faulted = true // one per history (a second rollback on the same handle is K4 territory)
 			}
 			for j := 0; j < k; j++ {
@@ -523,6 +535,12 @@ func runC16(c C16Case, o *Obs) error {
 					if q.Client != "verif://w" || !q.Mutating() {
 						return nil
 					}
+					if step.FailKind == "retire" {
+						if (q.Op == "PUT" && strings.Contains(q.Key, "/root/merged/")) || (q.Op == "DELETE" && strings.Contains(q.Key, "/root/current/")) {
+							return fakes3.ErrInjected
+						}
+						return nil
+					}
 					count++
 					if count >= step.FailAt {
 						return fakes3.ErrInjected
@@ -531,6 +549,9 @@ func runC16(c C16Case, o *Obs) error {
 				}
 				err := conn.Exec("commit")
 				store.Intercept = nil
+				if err == nil && len(currentVersions(store, prefix)) > 1 {
+					o.Class("commit-acknowledged-parent-not-retired")
+				}
 				if err != nil {
 					// the commit was not acknowledged: nothing of it may be visible or stored,
 					// and everything committed afterwards must again be complete on its own
@@ -557,6 +578,18 @@ func runC16(c C16Case, o *Obs) error {
 				if q.Client != "verif://w" || !q.Mutating() {
 					return nil
 				}
+				switch step.FailKind {
+				case "node-deletes":
+					if q.Op == "DELETE" && strings.Contains(q.Key, "/node/") {
+						return fakes3.ErrInjected
+					}
+					return nil
+				case "version-deletes":
+					if q.Op == "DELETE" && strings.Contains(q.Key, "/root/") {
+						return fakes3.ErrInjected
+					}
+					return nil
+				}
 				count++
 				if count >= step.FailAt {
 					return fakes3.ErrInjected
@@ -566,6 +599,9 @@ func runC16(c C16Case, o *Obs) error {
 			// cutoff after every write: every delete marker is purged, the tree is re-shaped
 			verr := conn.Vacuum(tn, baseTime+1<<30)
 			store.Intercept = nil
+			// a vacuum installs a clone of the handle's tree: from here on the next BEGIN
+			// snapshot shares nodes with it exactly as after a rollback (K4 steer below)
+			dirtyHandle = true
 			if verr != nil {
 				o.Class("vacuum-failed-by-storage-fault")
 			} else {
